@@ -616,7 +616,18 @@ func TestVerifC15Mutations(t *testing.T) {
 			c.Class("nothing-to-mutate")
 			return
 		}
-		mu := muts[rapid.IntRange(0, len(muts)-1).Draw(rt, "mutation")]
+		// draw the kind first so that rare kinds are not drowned by frequent ones
+		var names []string
+		byName := map[string][]c15Mut{}
+		for _, mu := range muts {
+			if byName[mu.name] == nil {
+				names = append(names, mu.name)
+			}
+			byName[mu.name] = append(byName[mu.name], mu)
+		}
+		sort.Strings(names)
+		group := byName[rapid.SampledFrom(names).Draw(rt, "mutationKind")]
+		mu := group[rapid.IntRange(0, len(group)-1).Draw(rt, "mutation")]
 		bad := enc.Copy()
 		mu.apply(bad)
 		c.Fault()
